@@ -267,7 +267,8 @@ def execute(sc):
                 probes.inc('keyerror_inside_base_but_outside_view')
         if ids:
           req = rng.sample(ids, min(len(ids), 3)) + [rng.choice(ids)]
-          got = list(fd.get_clients(req))
+          # the request is an Iterable: a list, or a one-shot iterator
+          got = list(fd.get_clients(iter(req) if rng.chance(0.5) else req))
           if [c for c, _ in got] != req:
             bad('bulk-get', 'get_clients-not-in-request-order', f'get_clients({req}) gave {[c for c, _ in got]}')
           for cid, ds in got:
@@ -494,7 +495,7 @@ def execute(sc):
             continue
           gq = Rng(op[5]).sub('req')
           t['req'] = [gq.choice(sorted(parent.ids)) for _ in range(gq.randint(1, 2 * len(parent.ids)))]
-          t['it'] = fd.get_clients(list(t['req']))
+          t['it'] = fd.get_clients(iter(list(t['req'])) if gq.chance(0.5) else list(t['req']))
         else:
           t['it'] = fd.shuffled_clients(op[4], op[5]) if k == 'shuffled' else getattr(fd, k)()
         tasks.append(t)
